@@ -17,6 +17,8 @@ Prog2_2 == [a \in Party |-> IF a = 0 THEN P2 ELSE P2eq]
 ProgArr == [a \in Party |-> IF a = 0 THEN <<Arr(<<7, 100>>), Arr(<<100, 7>>)>> ELSE Silent]
 ProgArr2 == [a \in Party |-> <<Arr(<<7, 100>>)>>]
 ProgMix == [a \in Party |-> IF a = 0 THEN <<Arr(<<7, 100, 7>>), Arr(<<100, 7>>)>> ELSE Silent]
+NoValMC == -1
+Prog3_1 == [a \in Party |-> <<One(7 + 93 * a)>>]
 NoTagNL == <<>>
 TagNLa == <<{0}, {1}, {}>>       \* first tag starts with an NL lookalike, second ends with one
 TagNLb == <<{1}, {}, {0}>>
